@@ -161,6 +161,13 @@ def main():
                 lo = float(sol[ib] - rac.rng.uniform(0.2, 1.5))
                 prob["k0"][ib] = lo
                 prob["lim"][ib] = [lo, 50.0]
+            # (a knob exactly ON a limit is not "inside wide limits": with a non-unit weight w whose scaling does not round-trip, (k / w) * w != k, the
+            #  merit function's own limit test sees the starting point one ulp outside and refuses it before any step is taken -- "up to rounding"
+            #  in the statement; found by the thorough tier on the unchanged tree, a demand of the harness beyond the statement, not a finding.
+            #  The case is kept with a weight that round-trips.)
+            w_ = prob["w"][ib]
+            if w_ is not None and (prob["k0"][ib] / w_) * w_ != prob["k0"][ib]:
+                prob["w"][ib] = None
         for broyden in (False, True):
             scr = PRELUDE + DEADLINE_SRC + G.SRC + SRC + f"prob = {prob!r}\nopt, d, act = build(prob)\nopt.step(1, broyden={broyden})\nkn = np.array(knobs_of(d, prob)); sol = np.array({sol.tolist()!r})\n" \
                 "print(kn, sol)\nassert np.allclose(kn, sol, rtol=1e-5, atol=1e-5), (kn, sol)\nopt.solve()\n"
